@@ -259,10 +259,17 @@ def build(desc):
 
 
 def dt_dataset(times, data, order=None):
-    ds = {'time': list(times)}
+    # (a caller that keeps ONE time axis for several logs passes the same list object every time: times is then a SharedAxis)
+    ds = {'time': times.axis if isinstance(times, SharedAxis) else list(times)}
     for v in (order or sorted(data)):
         ds[v] = list(data[v])
     return ds
+
+
+class SharedAxis(object):
+    """marks a time column that the caller re-uses (the same list object) for every log it evaluates"""
+    def __init__(self, axis):
+        self.axis = axis
 
 
 def _wrap(spec, v, x):
